@@ -105,3 +105,31 @@ Proof. induction 1; simpl; lia. Qed.
 
 Lemma cnt_repeat {A} (f : A -> bool) x k : cnt f (repeat x k) = if f x then Z.of_nat k else 0.
 Proof. induction k as [|k IH]; [simpl; now destruct (f x)|]. cbn [repeat cnt]. rewrite IH. destruct (f x); lia. Qed.
+
+(* Python's  str * int  on lists *)
+Definition rep {A} (l : list A) (k : nat) : list A := concat (repeat l k).
+
+Fixpoint lZ_eqb (a b : list Z) : bool :=
+  match a, b with
+  | [], [] => true
+  | x :: a', y :: b' => Z.eqb x y && lZ_eqb a' b'
+  | _, _ => false
+  end.
+Fixpoint llZ_eqb (a b : list (list Z)) : bool :=
+  match a, b with
+  | [], [] => true
+  | x :: a', y :: b' => lZ_eqb x y && llZ_eqb a' b'
+  | _, _ => false
+  end.
+Lemma lZ_eqb_eq a b : lZ_eqb a b = true -> a = b.
+Proof.
+  revert b. induction a as [|x a IH]; intros [|y b] H; try discriminate; [reflexivity|].
+  cbn [lZ_eqb] in H. apply andb_prop in H. destruct H as [H1 H2].
+  apply Z.eqb_eq in H1. subst. f_equal. apply IH. exact H2.
+Qed.
+Lemma llZ_eqb_eq a b : llZ_eqb a b = true -> a = b.
+Proof.
+  revert b. induction a as [|x a IH]; intros [|y b] H; try discriminate; [reflexivity|].
+  cbn [llZ_eqb] in H. apply andb_prop in H. destruct H as [H1 H2].
+  apply lZ_eqb_eq in H1. subst. f_equal. apply IH. exact H2.
+Qed.
